@@ -24,6 +24,7 @@ static const char* names[] = {
     "deposit: stale id against a recycled slot",
     "deposit: take_released / finish_released split across threads while a new item is emplaced",
     "deposit: two items, takers crossed",
+    "ids32: dealloc(a) || dealloc(b),alloc,dealloc,alloc, then sequential recycling: no (value, version) pair is ever issued twice",
 };
 int harness_configs() { return sizeof(names) / sizeof(names[0]); }
 const char* harness_config_name(int c) { return names[c]; }
@@ -31,12 +32,20 @@ const char* harness_name() { return "mc_ids"; }
 
 // harness-side ownership map (background: ordered, but not preemption points)
 static std::atomic<int> owned[64];
-static void own_init() { for (auto& o : owned) o.store(0, std::memory_order_relaxed); bbmc::background(owned, sizeof owned); }
+// every (value, version) pair an allocator hands out must be new: versioned ids are what makes a stale id recognisable
+static std::atomic<uint64_t> issued[64]; static std::atomic<int> n_issued;
+static void own_init() { for (auto& o : owned) o.store(0, std::memory_order_relaxed); bbmc::background(owned, sizeof owned); n_issued.store(0, std::memory_order_relaxed); bbmc::background(issued, sizeof issued); bbmc::background(&n_issued, sizeof n_issued); }
+static void note_issued(uint64_t pair) {
+  int n = n_issued.load(std::memory_order_relaxed);
+  for (int i = 0; i < n; i++) bbmc::check(issued[i].load(std::memory_order_relaxed) != pair, "allocate handed out a (value, version) pair it had handed out before: a stale id would match again");
+  int k = n_issued.fetch_add(1, std::memory_order_relaxed); bbmc::require(k < 64, "issued table"); issued[k].store(pair, std::memory_order_relaxed);
+}
 template <class T>
 static VersionedValue<T> take_id(IdAllocator<T>& a) {
   auto id = a.allocate();
   bbmc::check(id.value < 64, "allocator minted an absurd value");
   bbmc::check(owned[id.value].fetch_add(1, std::memory_order_relaxed) == 0, "an id value is held by two owners at the same time");
+  note_issued(((uint64_t)id.version << 32) | (uint64_t)id.value);
   return id;
 }
 template <class T>
@@ -83,6 +92,15 @@ static void ids_config(int shape) {
     std::thread t3([&] { give_id(a, held); });
     t1.join(); t2.join(); t3.join();
     live.push_back(h1.value); live.push_back(h2.value);
+  } else if (shape == 4) {
+    auto ha = take_id(a), hb = take_id(a);
+    VersionedValue<T> y;
+    std::thread t1([&] { give_id(a, ha); });
+    std::thread t2([&] { give_id(a, hb); auto x = take_id(a); give_id(a, x); y = take_id(a); });
+    t1.join(); t2.join();
+    // recycle sequentially a few times: every allocation must carry a pair never seen before
+    auto z = take_id(a); give_id(a, y); auto w = take_id(a); give_id(a, z); auto u = take_id(a); give_id(a, w); auto v = take_id(a);
+    live.push_back(u.value); live.push_back(v.value);
   } else {
     auto x = a.allocate(), y = a.allocate(), held = take_id(a); a.deallocate(y); a.deallocate(x);
     VersionedValue<T> h1, h2, h3;
@@ -181,5 +199,6 @@ void harness_main(int cfg) {
     case 8: deposit(1); break;
     case 9: deposit(2); break;
     case 10: deposit(3); break;
+    case 11: ids_config<uint32_t>(4); break;
   }
 }
